@@ -12,7 +12,7 @@ RULE = ("each of the sixteen PCBO.add_constraint_G / add_constraint_eq_G methods
         "already carry another logical constraint. Oracle: exact difference after - before tabulated over the "
         "operands' variables against a plain-Python gate evaluator. Non-trivial = relation neither constant-true nor "
         "constant-false; distinct = digest of (method, operand descriptions, lam)"
-        ' Also: positional lam for the fixed-arity methods, operand objects shared across gates, in-place-edited named operands, long-monomial and constant operands, and between two gates: trivially decided inequalities, round(H, -1/0/2), copy() (recorded constraints and validity must stay).')
+        ' Also: positional lam for the fixed-arity methods, operand objects shared across gates, in-place-edited named operands, long-monomial and constant operands, and between two gates: trivially decided inequalities, round(H, -1/0/2), refresh(), copy() / copy.deepcopy / copy.copy / the copy constructor (recorded constraints and validity must stay).')
 TIERS = {"quick": {"shards": 8, "cases": 2500}, "thorough": {"shards": 16, "cases": 30000}}
 FLOOR_BASE = {"quick": 300, "thorough": 8000}    # case counts the floors below were calibrated for; the launcher scales them
 METHODS = [g for g in _sat.ALL] + ["eq_" + g for g in _sat.ALL]
@@ -22,7 +22,7 @@ def FLOORS(tier):
     q = tier == "quick"
     f = {"expression-operand": 600 if q else 20000, "is_solution_valid-checks": 20000 if q else 10 ** 6,
          "second-constraint-on-model": 300, "shared-operand-object": 400, "lam-positional": 100,
-         "between-gates:trivial-le": 30, "between-gates:round(-1)": 30, "between-gates:copy": 30, "between-gates:clear": 30, "other-constraint-kind-first": 150}
+         "between-gates:trivial-le": 30, "between-gates:round(-1)": 30, "between-gates:copy": 30, "between-gates:clear": 30, "between-gates:refresh": 20, "between-gates:deepcopy": 20, "between-gates:copy.copy": 20, "between-gates:ctor": 20, "other-constraint-kind-first": 150}
     for m in METHODS:
         f["method:" + m] = 60 if q else 2000
         g = m.replace("eq_", "")
@@ -142,7 +142,7 @@ def case(ctx, rng, idx):
             nontriv = True
         # ---- something else happens to the model between two gates; what is valid stays what it was ----------------
         if rng.random() < 0.3:
-            how = rng.choice(["trivial-le", "trivial-ge", "round(-1)", "round(0)", "round(2)", "copy", "clear"])
+            how = rng.choice(["trivial-le", "trivial-ge", "round(-1)", "round(0)", "round(2)", "copy", "clear", "refresh", "deepcopy", "copy.copy", "ctor"])
             if how == "clear":
                 # the object is emptied and used again: nothing recorded before may judge what comes after
                 okb, _ = ctx.call("clear", H.clear, _w=w)
@@ -166,9 +166,13 @@ def case(ctx, rng, idx):
                     okb, _ = ctx.call("add_constraint_le_zero", H.add_constraint_le_zero, {(rng.choice(labs),): 1, (): -rng.choice([1, 3])}, lam=lam, _w=w)
                 elif how == "trivial-ge":
                     okb, _ = ctx.call("add_constraint_ge_zero", H.add_constraint_ge_zero, {(rng.choice(labs),): -1, (): rng.choice([1, 3])}, lam=lam, _w=w)
-                elif how == "copy":
-                    okb, H2 = ctx.call("copy", H.copy, _w=w)
-                    if okb:
+                elif how == "refresh":
+                    okb, _ = ctx.call("refresh", H.refresh, _w=w)
+                elif how in ("copy", "deepcopy", "copy.copy", "ctor"):
+                    import copy as _copy
+                    okb, H2 = ctx.call(how, {"copy": H.copy, "deepcopy": lambda: _copy.deepcopy(H), "copy.copy": lambda: _copy.copy(H),
+                                             "ctor": lambda: type(H)(H)}[how], _w=w)
+                    if okb and how != "copy.copy":       # (a shallow copy shares by definition: Python's sharing, not the library's)
                         # the history continues on the copy; the original stays as it is
                         watched.append((H, validity_table(H), {k: [dict(p) for p in v] for k, v in H.constraints.items()}))
                     H = H2 if okb else H
